@@ -122,6 +122,15 @@ def build_cases(kind, src, E, mk, mk1, L):
             want = mk(E[slice(a, b)])
             fits = all(x is None or -(2 ** 63) <= x < 2 ** 63 for x in (a, b))
             yield ("slice", wrap % ("%s[%s:%s]" % (S, sa, sb_)), ("eq", want) if fits else ("either", want), (a, b))
+            # the same slice through the section forms: every combination of given and open slots
+            if a is not None and b is not None and fits:
+                yield ("slice_section", wrap % ("(_[_:_])(%s, %s, %s)" % (S, sa, sb_)), ("eq", want), (a, b))
+                yield ("slice_section", wrap % ("(_[%s:_])(%s, %s)" % (sa, S, sb_)), ("eq", want), (a, b))
+                yield ("slice_section", wrap % ("(_[_:%s])(%s, %s)" % (sb_, S, sa)), ("eq", want), (a, b))
+            elif a is not None and b is None and fits:
+                yield ("slice_section", wrap % ("(_[_:])(%s, %s)" % (S, sa)), ("eq", want), (a, b))
+            elif a is None and b is not None and fits:
+                yield ("slice_section", wrap % ("(_[:_])(%s, %s)" % (S, sb_)), ("eq", want), (a, b))
         for t in NONINT[:2]:
             yield ("slice_nonint", wrap % ("%s[%s:]" % (S, t)), ("err",), None)
     # on multi-byte strings the positional accessors are byte-based like indexing (observed); uncons / unsnoc / only are
@@ -181,6 +190,18 @@ def build_cases(kind, src, E, mk, mk1, L):
                 yield ("remove_slice", "(\\x -> (r := remove x[%s:%s]; [r, x]))(%s)" % (sa, sb_, S),
                        ("eq", [rem, e2]) if fits else ("either", [rem, e2]), (a, b))
             yield ("pop", "(\\x -> (r := pop x; [r, x]))(%s)" % S, ("eq", [E[-1], E[:-1]]) if n else ("err",), None)
+            # every-assignment and every-op-assignment over a slice clamp their bounds exactly like a slice read
+            for a, b in itertools.product(bounds, bounds):
+                fits = all(x is None or -(2 ** 63) <= x < 2 ** 63 for x in (a, b))
+                if not fits:
+                    continue
+                sa = "" if a is None else isrc(a)
+                sb_ = "" if b is None else isrc(b)
+                sel = list(range(n))[slice(a, b)]
+                e5 = [7 if i in sel else x for i, x in enumerate(E)]
+                e6 = [x + 1 if i in sel else x for i, x in enumerate(E)]
+                yield ("every_slice_set", "(\\x -> (every x[%s:%s] = 7; x))(%s)" % (sa, sb_, S), ("eq", e5), (a, b))
+                yield ("every_slice_op", "(\\x -> (every x[%s:%s] += 1; x))(%s)" % (sa, sb_, S), ("eq", e6), (a, b))
 
 
 def nontrivial(kind, n, extra):
